@@ -74,13 +74,13 @@ def gen_plan(r, tier):
     return workers, failadd, steps, exp, k
 
 
-def burst_plans(r, tier):
+def burst_plans(r, tier, big=True):
     """several clients connect while the event loop is busy (held inside the set-up hook of the first one): their arrivals
     reach the edge-triggered listener as ONE readiness event, after which nothing more happens on the listener.  Every one
     of them has a complete request waiting and must be served."""
     out = []
     # (70: more arrivals under one readiness edge than any plausible per-round bound of the accept loop — and its double)
-    for k in ([3, 4, 70] if tier == "quick" else [2, 3, 4, 5, 6, 8, 33, 70, 130]):
+    for k in [x for x in ([3, 4, 70] if tier == "quick" else [2, 3, 4, 5, 6, 8, 33, 70, 130]) if big or x <= 8]:
         for workers in ([2] if tier == "quick" else [1, 2, 4]):
             steps = ["H", "O0", "q1"] + ["O%d" % i for i in range(1, k)] + ["U"]
             exp = []
@@ -270,7 +270,7 @@ def run(pid):
         t = "thorough" if tier in ("thorough", "search") else "quick"
         r = rng_for(seed, "epoll")
         n = 40 if t == "quick" else 1500
-        plans = [gen_plan(r, t) for _ in range(n)] + burst_plans(r, t)
+        plans = [gen_plan(r, t) for _ in range(n)] + burst_plans(r, t, big=(pid == "C14"))   # (the resource census of C15 is taken after a fixed quiesce: small bursts only)
         lines = ["EPOLL w=%d failadd=%s plan=%s" % (w, ",".join(map(str, fa)) or "-", ",".join(st)) for w, fa, st, _, _ in plans]
         # the same plans with a one-slot event buffer (`epoll_queue_max_events(1)`: every batch is full)
         k1 = 6 if t == "quick" else 200
